@@ -283,6 +283,13 @@ def r09_5(ctx):
 
 
 def run(ctx):
+    # the status a recycled worker leaves with is the one it chose: os._exit on every edge of the farewell (borrowed from C08)
+    from .c08 import r08_2 as _r08_2
+    from ..report import Only as _Only9
+    _r08_2(_Only9(ctx, ('_do_exit:',), floor=1, doc='the worker leaves through os._exit(status) on every edge of the DEATH put'))
+    # replacements of recycled / grown workers are not charged to the restart limiter (borrowed from C11)
+    from .c11 import r11_1 as _r11_1
+    _r11_1(_Only9(ctx, ('_repopulate_pool:',), floor=2, doc='the limiter is consulted exactly for workers that left with an abnormal status'))
     r09_1(ctx, state_recheck=False)
     r09_7(ctx)
     r09_9(ctx)
